@@ -471,6 +471,12 @@ func (o zop) args() []string {
 		return []string{"set", keyPrefix + o.K, strconv.FormatInt(o.V, 10), "NX"}
 	case "setifxx":
 		return []string{"set", keyPrefix + o.K, strconv.FormatInt(o.V, 10), "XX"}
+	case "get":
+		return []string{"get", keyPrefix + o.K}
+	case "hget":
+		return []string{"hget", keyPrefix + "h1", o.K[2:]}
+	case "llen":
+		return []string{"llen", keyPrefix + "l1"}
 	case "pfadd": // one of a few fixed elements of the HyperLogLog key p1
 		return []string{"pfadd", keyPrefix + "p1", "e" + strconv.FormatInt(o.V, 10)}
 	case "hincrby":
@@ -633,6 +639,21 @@ func (h *history) fail(id int, err error) {
 	h.mu.Unlock()
 }
 
+// refuse records an operation that certainly has no effect (an unanswered read).
+func (h *history) refuse(id int, err error) {
+	why := ""
+	if err != nil {
+		why = err.Error()
+		if len(why) > 80 {
+			why = why[:80]
+		}
+	}
+	h.mu.Lock()
+	h.nRefused++
+	h.ev = append(h.ev, trace.M{"ev": "refused", "id": id, "why": why})
+	h.mu.Unlock()
+}
+
 // write stores the history; `extra` events (white-box reports that have no place in the
 // parent's order) are put right after the first line.
 func (h *history) write(path string, extra ...trace.M) error {
@@ -672,6 +693,8 @@ type workload struct {
 	think   int   // mean client think time in ms between operations (0 = none)
 	burst   int   // the first `burst` operations of a run are issued without think time (batched applies)
 	pf      bool  // also issue PFADD on the HyperLogLog key (histories that start empty only)
+	reads   bool  // also issue GET / HGET / LLEN to the replica that reports itself leader
+	isolated int32 // node currently cut off by the partition nemesis (0 = none)
 	pollOn  bool
 }
 
@@ -681,8 +704,13 @@ type workload struct {
 // Avoid rule of the general corpus: these three are only sent to the replica that currently
 // reports itself leader.
 func (w *workload) popOK(target int) bool {
+	if int(atomic.LoadInt32(&w.isolated)) == target {
+		return false // a leader that was cut off still reports itself leader for a while
+	}
 	return w.cl.n == 1 || int(atomic.LoadInt32(&w.leader)) == target
 }
+
+func isRead(t string) bool { return t == "get" || t == "hget" || t == "llen" }
 
 // pollLeader keeps the leader hint fresh (status of every live child every 60 ms).
 func (w *workload) pollLeader(stop chan struct{}) {
@@ -807,6 +835,9 @@ func (w *workload) run(maxOps int) {
 					}
 				} else if w.pf && rng.Intn(9) == 0 {
 					op = zop{"pfadd", "p1", int64(1 + rng.Intn(8))}
+				} else if w.reads && rng.Intn(5) == 0 && w.popOK(target) {
+					// a read served by the replica that reports itself leader (no stale reads allowed)
+					op = []zop{{"get", "s1", 0}, {"get", "s2", 0}, {"hget", "h1f1", 0}, {"hget", "h1f2", 0}, {"llen", "l1", 0}}[rng.Intn(5)]
 				}
 				for (op.T == "lpop" || op.T == "rpop" || op.T == "setnx") && !w.popOK(target) {
 					op = genOp(rng, id)
@@ -828,7 +859,11 @@ func (w *workload) run(maxOps int) {
 					err = fmt.Errorf("unexpected reply %v", v)
 				}
 				// an error reply or a broken connection: the operation may or may not take effect
-				w.h.fail(id, err)
+				if isRead(op.T) {
+					w.h.refuse(id, err) // an unanswered read has no effect
+				} else {
+					w.h.fail(id, err)
+				}
 				conn.close()
 				conn = nil
 				// Back off until some node takes a write to an unmodelled key again: every failed
@@ -1004,7 +1039,23 @@ func (cl *vcluster) readAll(h *history) bool {
 	return false
 }
 
+// setStale switches follower reads on every live node (needed to dump the followers).
+func (cl *vcluster) setStale(on bool) {
+	arg := "off"
+	if on {
+		arg = "on"
+	}
+	for i := 1; i <= cl.n; i++ {
+		if k := cl.kids[i]; k != nil && k.alive && !k.exited() {
+			k.send("stale " + arg)
+			k.waitLine(2*time.Second, "STALE ")
+		}
+	}
+}
+
 func (cl *vcluster) readAllOnce(h *history) bool {
+	cl.setStale(true)
+	defer cl.setStale(false)
 	for i := 1; i <= cl.n; i++ {
 		var st zstore
 		var err error
